@@ -15,6 +15,9 @@ From Coq Require Import List ZArith NArith Bool.
 From Astisub Require Import Kit.Base Kit.Str Kit.Scan Kit.Html Model.Dur Model.Srt.
 From Astisub Require Import Proofs.SrtEscProofs Proofs.SrtProofs Proofs.SrtReadProofs Proofs.EolProofs Proofs.SrtIOProofs.
 From Astisub Require Import Proofs.SrtSimple Proofs.SrtSimpleRaw.
+From Astisub Require Import Kit.Chk Model.SrtC Proofs.SrtChk Proofs.SrtWriteRender.
+From Coq Require Strings.String.
+Import Strings.String.StringSyntax.
 Import ListNotations.
 
 (* the document written for a representable cue list is read back as that list *)
@@ -130,3 +133,62 @@ Proof. exact raw_text_witness. Qed.
    without lines and times off the millisecond grid satisfies the hypotheses of C01_write_read *)
 Example C01_example : Forall repr_item ex_items /\ ex_items <> [].
 Proof. split; [exact ex_items_repr | discriminate]. Qed.
+
+(* ---- the writer's output, stated without the reader ----
+   The bytes WriteToSRT produces ARE the LF-terminated canonical rendering of the cue list (w_rendering: byte-order
+   mark, cue k numbered k+1 on its index line, one blank line between cues and none after the last, comma and three
+   fraction digits, one space on each side of the arrow, no coordinates).  The equation has no hypothesis on the cues
+   and does not mention the reader. *)
+Theorem C01_write_is_rendering : forall l : list sitem, l <> [] ->
+  write_srt l = Ok (render_eol [10] (render_items true (w_rendering l) 0)).
+Proof. exact write_is_rendering. Qed.
+Print Assumptions C01_write_is_rendering.
+
+(* what that rendering denotes (denote_item: the number on the index line, the times truncated to the rendered
+   fraction digits, the lines): the cues renumbered 1..n and truncated to the millisecond *)
+Theorem C01_write_denotes : forall l : list sitem, (Z.of_nat (length l) <= max_int64)%Z ->
+  map denote_item (w_rendering l) = renumber_truncate l.
+Proof. exact write_denotes. Qed.
+Print Assumptions C01_write_denotes.
+
+(* for representable cues the canonical rendering is one of the renderings C01_read_rendered covers ... *)
+Theorem C01_write_rendering_ok : forall l : list sitem, Forall repr_item l -> (Z.of_nat (length l) <= max_int64)%Z ->
+  Forall (fun p => rend_ok (fst p) /\ repr_item (snd p)) (w_rendering l) /\
+  Forall (fun p => gap_ok (fst p)) (tl (w_rendering l)).
+Proof. exact write_rendering_ok. Qed.
+Print Assumptions C01_write_rendering_ok.
+
+(* ... so that the round trip C01_write_read follows from the three statements above and C01_read_rendered *)
+Theorem C01_write_read_via_rendering : forall l : list sitem, Forall repr_item l -> l <> [] ->
+  (Z.of_nat (length l) <= max_int64)%Z ->
+  exists data, write_srt l = Ok data /\
+               data = render_eol [10] (render_items true (w_rendering l) 0) /\
+               read_srt data = Ok (map denote_item (w_rendering l)) /\
+               map denote_item (w_rendering l) = renumber_truncate l.
+Proof. exact write_read_via_rendering. Qed.
+Print Assumptions C01_write_read_via_rendering.
+
+(* a computed instance: the lines of the canonical rendering of two cues (index fields 7 and 0, an end time off the
+   millisecond grid, a bold run, an ampersand) and the bytes written *)
+Example C01_write_is_rendering_example :
+  render_items true (w_rendering x_l) 0 =
+    [ bom ++ wb "1"; wb "00:00:01,500 --> 00:00:02,000"; wb "<b>Hi</b>"; wb "a&amp;b"; [];
+      wb "2"; wb "00:00:03,000 --> 00:00:04,000"; wb "x" ] /\
+  write_srt x_l = Ok (render_eol [10] (render_items true (w_rendering x_l) 0)).
+Proof. split; [exact x_rendering_lines | exact x_written]. Qed.
+
+(* ---- the model the harness runs has explicit panic sites (C08) ----
+   Model/SrtC.v transcribes srt.go with every index expression, slice expression and pointer dereference as a checked
+   access that yields Panic <line of srt.go> when out of range / nil, behind the guard the Go code tests.  It is the
+   function the extracted driver runs against the library; the theorems of this file are stated on the pattern-matching
+   transcription, which computes the same function: *)
+Theorem C01_checked_reader_agrees : forall ls e, read_srt_lines_c ls e = read_srt_lines ls e.
+Proof. exact read_srt_lines_c_ok. Qed.
+Print Assumptions C01_checked_reader_agrees.
+Theorem C01_checked_writer_agrees : forall l, write_srt_c l = write_srt l.
+Proof. exact write_srt_c_ok. Qed.
+Print Assumptions C01_checked_writer_agrees.
+(* no panic site of srt.go is reachable (the content: each guard implies its access is in range) *)
+Theorem C01_checked_reader_total : forall ls e p, read_srt_lines_c ls e <> Panic p.
+Proof. exact read_srt_lines_c_no_panic. Qed.
+Print Assumptions C01_checked_reader_total.
